@@ -1,6 +1,7 @@
 package drivers
 
 import (
+	"strings"
 	"bufio"
 	"encoding/json"
 	"fmt"
@@ -163,7 +164,7 @@ func TestWorker(t *testing.T) {
 		if j.Ref {
 			plan = &sim.FaultPlan{Pos: -1}
 		} else if j.Kind != "" {
-			plan = &sim.FaultPlan{Pos: j.Pos, Kind: j.Kind}
+			plan = &sim.FaultPlan{Pos: j.Pos, Kind: strings.TrimSuffix(j.Kind, "+again"), Again: strings.HasSuffix(j.Kind, "+again")}
 		}
 		// wall-clock watchdog: a run that does not finish is a harness failure, never a verdict
 		runDone := make(chan struct{})
